@@ -184,10 +184,10 @@ class Beh:
         return e
 
     # constructors -----------------------------------------------------
-    def newt(self, kind, ty, path, s, tie=None):
+    def newt(self, kind, ty, path, s, tie=None, nv=0):
         o = self.fresh()
         e = {"k": "newt", "o": o, "kind": kind, "ty": ty, "path": path,
-             "alpha": s.json_alpha(), "segs": s.json_segs()}
+             "alpha": s.json_alpha(), "segs": s.json_segs(), "nv": nv}
         if tie is not None:
             e["tie"] = tie
         self.add(e)
@@ -199,9 +199,9 @@ class Beh:
                   "alpha": s.json_alpha(), "segs": s.json_segs()})
         return o
 
-    def newb(self, kind, path, s=None, ty="usize", n=0, pos=None):
+    def newb(self, kind, path, s=None, ty="usize", n=0, pos=None, nv=0):
         o = self.fresh()
-        e = {"k": "newb", "o": o, "kind": kind, "path": path, "ty": ty, "n": n}
+        e = {"k": "newb", "o": o, "kind": kind, "path": path, "ty": ty, "n": n, "nv": nv}
         if s is not None:
             # bit patterns are given directly (no alphabet)
             e["segs"] = [{"pat": [s.alpha[i - 1] for i in p], "rep": r} for p, r in s.segs]
